@@ -744,3 +744,76 @@ Proof.
   change (x1 / lam :: sdiv lam xr') with (sdiv lam (x1 :: xr')).
   rewrite IH. f_equal. field. lra.
 Qed.
+
+(* =====================================================================================
+   Filter functions and trapezoidal (infidelity-type) integrals under re-segmentation
+   ===================================================================================== *)
+Section FFReseg.
+Variable d : nat.
+
+(* the filter function at frequency index o depends on the control matrix only through its column o *)
+Lemma ff_ext_col na nk no (B B' : Arr3 (T:=R)) a b o : (a < na)%nat -> (b < na)%nat -> (o < no)%nat ->
+  (forall j k, (j < na)%nat -> (k < nk)%nat -> a3get RO B j k o = a3get RO B' j k o) ->
+  a3get RO (filter_function RO na nk no B) a b o = a3get RO (filter_function RO na nk no B') a b o.
+Proof.
+  intros Ha Hb Ho H. rewrite !ff_entry by auto. apply csumn_ext. intros k Hk. rewrite !H by auto. reflexivity.
+Qed.
+
+(* no entry of the three segment integrals on the Taylor branch, at frequency index o *)
+Definition split_masked (thr : R) (om : list R) (ev : list R) (a b : R) (o : nat) : Prop :=
+  all_masked d thr (vg RO om o) ev (a + b) /\ all_masked d thr (vg RO om o) ev a /\ all_masked d thr (vg RO om o) ev b.
+
+Theorem split_segment_ff thr P1 P2 ev V a b ncg om bs ns j j' o :
+  0 <= thr -> (j < length ns)%nat -> (j' < length ns)%nat -> (o < length om)%nat ->
+  feq d (fmul d (fadj (toF V)) (toF V)) fid -> split_masked thr om ev a b o ->
+  a3get RO (filter_function RO (length ns) (length bs) (length om)
+              (cm_pulse d thr (P1 ++ (ev, V, a + b, ncg) :: P2) om bs ns)) j j' o =
+  a3get RO (filter_function RO (length ns) (length bs) (length om)
+              (cm_pulse d thr (P1 ++ (ev, V, a, ncg) :: (ev, V, b, ncg) :: P2) om bs ns)) j j' o.
+Proof.
+  intros H0 Hj Hj' Ho HV [M0 [M1 M2]]. apply ff_ext_col; auto.
+  intros j0 k Hj0 Hk. apply split_segment_cm_exact; auto.
+Qed.
+
+(* any quantity computed column by column from the control matrix (fidelity filter function, the integrand of
+   numeric.infidelity with or without the identity term, decay amplitudes ...) and integrated with util.integrate *)
+Definition column_local (na nk no : nat) (phi : Arr3 (T:=R) -> nat -> R) : Prop :=
+  forall B B' o, (o < no)%nat ->
+    (forall j k, (j < na)%nat -> (k < nk)%nat -> a3get RO B j k o = a3get RO B' j k o) -> phi B o = phi B' o.
+
+Theorem split_segment_integral thr P1 P2 ev V a b ncg om bs ns (phi : Arr3 (T:=R) -> nat -> R) :
+  0 <= thr -> column_local (length ns) (length bs) (length om) phi ->
+  feq d (fmul d (fadj (toF V)) (toF V)) fid ->
+  (forall o, (o < length om)%nat -> split_masked thr om ev a b o) ->
+  trapz RO (build (length om) (phi (cm_pulse d thr (P1 ++ (ev, V, a + b, ncg) :: P2) om bs ns))) om =
+  trapz RO (build (length om) (phi (cm_pulse d thr (P1 ++ (ev, V, a, ncg) :: (ev, V, b, ncg) :: P2) om bs ns))) om.
+Proof.
+  intros H0 Hphi HV HM. f_equal. apply build_ext. intros o Ho. apply Hphi; auto.
+  intros j k Hj Hk. destruct (HM o Ho) as [M0 [M1 M2]]. apply split_segment_cm_exact; auto.
+Qed.
+
+(* the integrand spectrum x fidelity filter function is column-local *)
+Lemma ff_diag_column_local na nk no (S : nat -> R) a : (a < na)%nat ->
+  column_local na nk no (fun B o => S o * fst (a3get RO (filter_function RO na nk no B) a a o)).
+Proof. intros Ha B B' o Ho H. f_equal. f_equal. apply ff_ext_col; auto. Qed.
+
+Corollary split_segment_infidelity thr P1 P2 ev V a b ncg om bs ns (S : nat -> R) j :
+  0 <= thr -> (j < length ns)%nat -> feq d (fmul d (fadj (toF V)) (toF V)) fid ->
+  (forall o, (o < length om)%nat -> split_masked thr om ev a b o) ->
+  let F P := filter_function RO (length ns) (length bs) (length om) (cm_pulse d thr P om bs ns) in
+  trapz RO (build (length om) (fun o => S o * fst (a3get RO (F (P1 ++ (ev, V, a + b, ncg) :: P2)) j j o))) om =
+  trapz RO (build (length om) (fun o => S o * fst (a3get RO (F (P1 ++ (ev, V, a, ncg) :: (ev, V, b, ncg) :: P2)) j j o))) om.
+Proof.
+  intros H0 Hj HV HM F.
+  apply (split_segment_integral thr P1 P2 ev V a b ncg om bs ns
+           (fun B o => S o * fst (a3get RO (filter_function RO (length ns) (length bs) (length om) B) j j o))); auto.
+  apply ff_diag_column_local; auto.
+Qed.
+
+(* zero-duration insertion: the arrays are equal, so is everything computed from them *)
+Corollary zero_duration_insert_ff thr P1 P2 ev V ncg om bs ns :
+  feq d (fmul d (toF V) (fadj (toF V))) fid ->
+  filter_function RO (length ns) (length bs) (length om) (cm_pulse d thr (P1 ++ (ev, V, 0, ncg) :: P2) om bs ns) =
+  filter_function RO (length ns) (length bs) (length om) (cm_pulse d thr (P1 ++ P2) om bs ns).
+Proof. intros HV. rewrite zero_duration_insert_cm by auto. reflexivity. Qed.
+End FFReseg.
